@@ -48,78 +48,91 @@ def run_case(seed, params=None):
     rng = random.Random(seed)
     env = MonEnv()
     mon = Monitor(env)
-    ragged = bool(params.get("ragged")) and rng.random() < 0.5
-    cv, kind, T, s, cap, acc, slotted, il, cparams = make_conveyor(env, rng, params.get("kind"), ragged)
-    sh = mon.label(cv.belt, kind, cv)
-    orc = ConveyorOracle(mon, sh, T, s, cap, acc, slotted, ragged)
-    H = Hist()
-    nitems = rng.randint(8, 40)
-    arr = rng.choice(("regular", "bursty", "irregular", "saturating"))
-    cons = rng.choice(("eager", "eager", "short_stalls", "long_stalls", "repeated", "stall_on_entry")) if not params.get("eager") else "eager"
-    aligned = bool(params.get("aligned")) or rng.random() < 0.4
-    if aligned:
-        arr = "aligned"
-        cons = "aligned"
-    gaps_irr = (0.13, 0.37, 0.5, 1.0, 1.41, 2.0, 0.77, s, 2 * s, T, s / 2, 3.3)
+    def lane(tag):
+        ragged = bool(params.get("ragged")) and rng.random() < 0.5
+        cv, kind, T, s, cap, acc, slotted, il, cparams = make_conveyor(env, rng, params.get("kind"), ragged)
+        sh = mon.label(cv.belt, kind, cv)
+        orc = ConveyorOracle(mon, sh, T, s, cap, acc, slotted, ragged)
+        H = Hist()
+        nitems = rng.randint(8, 40)
+        arr = rng.choice(("regular", "bursty", "irregular", "saturating"))
+        cons = rng.choice(("eager", "eager", "short_stalls", "long_stalls", "repeated", "stall_on_entry")) if not params.get("eager") else "eager"
+        aligned = bool(params.get("aligned")) or rng.random() < 0.4
+        if aligned:
+            arr = "aligned"
+            cons = "aligned"
+        gaps_irr = (0.13, 0.37, 0.5, 1.0, 1.41, 2.0, 0.77, s, 2 * s, T, s / 2, 3.3)
 
-    def producer():
-        yield env.timeout(rng.choice((0, 0.5, 0.25)) if not aligned else rng.choice((0, s, 2 * s)))
-        for i in range(nitems):
-            tok = cv.reserve_put()
-            yield tok
-            it = Item(f"i{i}")
-            it.length = il
-            cv.put(tok, it)
-            H.log("p", "put", it.id, env.now)
-            if arr == "aligned":
-                Tn = int(round(T / s))
-                g = s * rng.choice((0, 1, 1, 2, 3, 5, Tn, max(1, Tn - 1), Tn + 1, max(1, Tn - 2)))
-            elif arr == "regular":
-                g = max(s, 1.0)
-            elif arr == "bursty":
-                g = 0 if i % 4 != 3 else rng.choice((T, 2 * T, 3.7))
-            elif arr == "saturating":
-                g = 0
-            else:
-                g = rng.choice(gaps_irr)
-            if g > 0:
-                yield env.timeout(g)
+        def producer():
+            yield env.timeout(rng.choice((0, 0.5, 0.25)) if not aligned else rng.choice((0, s, 2 * s)))
+            for i in range(nitems):
+                tok = cv.reserve_put()
+                yield tok
+                it = Item(f"{tag}i{i}")
+                it.length = il
+                cv.put(tok, it)
+                H.log("p", "put", it.id, env.now)
+                if arr == "aligned":
+                    Tn = int(round(T / s))
+                    g = s * rng.choice((0, 1, 1, 2, 3, 5, Tn, max(1, Tn - 1), Tn + 1, max(1, Tn - 2)))
+                elif arr == "regular":
+                    g = max(s, 1.0)
+                elif arr == "bursty":
+                    g = 0 if i % 4 != 3 else rng.choice((T, 2 * T, 3.7))
+                elif arr == "saturating":
+                    g = 0
+                else:
+                    g = rng.choice(gaps_irr)
+                if g > 0:
+                    yield env.timeout(g)
 
-    def consumer():
-        k = 0
-        while True:
-            tok = cv.reserve_get()
-            yield tok
-            it = cv.get(tok)
-            H.log("c", "get", it.id, env.now)
-            k += 1
-            if cons == "aligned":
-                m = rng.choice((0, 0, 0, 1, 2, 3, 7, int(round(T / s)) + 1))
-                if m:
-                    yield env.timeout(m * s)
-            elif cons == "short_stalls" and k % 3 == 0:
-                yield env.timeout(rng.choice((s / 2, s, 0.3, 1.5 * s)))
-            elif cons == "long_stalls" and k % 4 == 0:
-                yield env.timeout(rng.choice((T, 2 * T, T + 0.37, 5)))
-            elif cons == "repeated":
-                yield env.timeout(rng.choice((0, 0, s, 2 * s, 0.4, T / 2)))
-            elif cons == "stall_on_entry" and k % 2 == 0:
-                # sleep so that the stall starts while the next item is in its entry phase
-                yield env.timeout(rng.choice((T - s / 2, T - s + 0.01, s / 3 + T)) if T > s else s)
+        def consumer():
+            k = 0
+            while True:
+                tok = cv.reserve_get()
+                yield tok
+                it = cv.get(tok)
+                H.log("c", "get", it.id, env.now)
+                k += 1
+                if cons == "aligned":
+                    m = rng.choice((0, 0, 0, 1, 2, 3, 7, int(round(T / s)) + 1))
+                    if m:
+                        yield env.timeout(m * s)
+                elif cons == "short_stalls" and k % 3 == 0:
+                    yield env.timeout(rng.choice((s / 2, s, 0.3, 1.5 * s)))
+                elif cons == "long_stalls" and k % 4 == 0:
+                    yield env.timeout(rng.choice((T, 2 * T, T + 0.37, 5)))
+                elif cons == "repeated":
+                    yield env.timeout(rng.choice((0, 0, s, 2 * s, 0.4, T / 2)))
+                elif cons == "stall_on_entry" and k % 2 == 0:
+                    # sleep so that the stall starts while the next item is in its entry phase
+                    yield env.timeout(rng.choice((T - s / 2, T - s + 0.01, s / 3 + T)) if T > s else s)
 
-    env.process(producer())
-    env.process(consumer())
+        env.process(producer())
+        env.process(consumer())
+        return cv, kind, T, s, cap, acc, slotted, il, cparams, sh, orc, H, nitems, arr, cons, aligned, ragged
+
+    cv, kind, T, s, cap, acc, slotted, il, cparams, sh, orc, H, nitems, arr, cons, aligned, ragged = lane("")
+    # companion belt: a second, independently scripted conveyor in the same environment (per-instance state that is
+    # wrongly shared between two belts only shows when two belts exist); judged by its own oracle
+    orc2 = None
+    if params.get("pair") or rng.random() < 0.2:
+        # half of the companions use the same item ids as the first belt (ids are the caller's business: per-belt
+        # bookkeeping keyed by item id must not be shared between belts)
+        orc2 = lane(rng.choice(("b", "")))[10]
     exc = None
     try:
         env.run(until=params.get("horizon", 300))
     except Exception as e:
         exc = e
     orc.finish(env.now)
+    if orc2 is not None:
+        orc2.finish(env.now)
     res = summarize(mon, sh, H, env, exc)
     res["nontrivial"]["C12"] = bool(getattr(orc, "nontrivial12", False)) or (len(orc.items) >= 8 and orc.n_exact >= 4 if hasattr(orc, "n_exact") else False)
     res["nontrivial"]["C13"] = bool(getattr(orc, "nontrivial13", False))
     res["spec"] = {"engine": "E4", "seed": seed, "kind": kind, "arrivals": arr, "consumer": cons, "items": nitems, "geometry": cparams, "aligned": aligned,
-                   "T": T, "step": s, "ragged": ragged}
+                   "T": T, "step": s, "ragged": ragged, "companion_belt": orc2 is not None}
     return res
 
 
